@@ -1434,21 +1434,22 @@ static int
 ismode_w(const wchar_t *start, const wchar_t *end, int *permset)
 {
 	const wchar_t *p;
+	int perms;
 
 	if (start >= end)
 		return (0);
 	p = start;
-	*permset = 0;
+	perms = 0;
 	while (p < end) {
 		switch (*p++) {
 		case L'r': case L'R':
-			*permset |= ARCHIVE_ENTRY_ACL_READ;
+			perms |= ARCHIVE_ENTRY_ACL_READ;
 			break;
 		case L'w': case L'W':
-			*permset |= ARCHIVE_ENTRY_ACL_WRITE;
+			perms |= ARCHIVE_ENTRY_ACL_WRITE;
 			break;
 		case L'x': case L'X':
-			*permset |= ARCHIVE_ENTRY_ACL_EXECUTE;
+			perms |= ARCHIVE_ENTRY_ACL_EXECUTE;
 			break;
 		case L'-':
 			break;
@@ -1456,6 +1457,7 @@ ismode_w(const wchar_t *start, const wchar_t *end, int *permset)
 			return (0);
 		}
 	}
+	*permset = perms;
 	return (1);
 }
 
@@ -1933,21 +1935,22 @@ static int
 ismode(const char *start, const char *end, int *permset)
 {
 	const char *p;
+	int perms;
 
 	if (start >= end)
 		return (0);
 	p = start;
-	*permset = 0;
+	perms = 0;
 	while (p < end) {
 		switch (*p++) {
 		case 'r': case 'R':
-			*permset |= ARCHIVE_ENTRY_ACL_READ;
+			perms |= ARCHIVE_ENTRY_ACL_READ;
 			break;
 		case 'w': case 'W':
-			*permset |= ARCHIVE_ENTRY_ACL_WRITE;
+			perms |= ARCHIVE_ENTRY_ACL_WRITE;
 			break;
 		case 'x': case 'X':
-			*permset |= ARCHIVE_ENTRY_ACL_EXECUTE;
+			perms |= ARCHIVE_ENTRY_ACL_EXECUTE;
 			break;
 		case '-':
 			break;
@@ -1955,6 +1958,7 @@ ismode(const char *start, const char *end, int *permset)
 			return (0);
 		}
 	}
+	*permset = perms;
 	return (1);
 }
 
